@@ -511,6 +511,16 @@ def emitter_domains(p: Program, fi: FuncInfo) -> dict[str, tuple[str, str]]:
                         for v in vals):
             if has_len_guard and set_ch is not None:
                 out.setdefault(var, ("TRACK", "channels assigned 0..num_tracks-1 by set_channel(i); input count checked against num_tracks"))
+    # ... or a name that a raising guard ties to such a channel (`if ch != pairing[0].channel: raise`: the key of the interleaved item)
+    if has_len_guard and set_ch is not None:
+        for g in raising_guards():
+            t = g.test
+            if isinstance(t, ast.Compare) and len(t.ops) == 1 and isinstance(t.ops[0], ast.NotEq) and not g.orelse:
+                for v_, e_ in ((t.left, t.comparators[0]), (t.comparators[0], t.left)):
+                    if isinstance(v_, ast.Name) and isinstance(e_, ast.Attribute) and e_.attr == "channel" and "pairing" in src(e_.value) or \
+                            (isinstance(v_, ast.Name) and isinstance(e_, ast.Attribute) and e_.attr == "channel" and isinstance(e_.value, ast.Name)
+                             and e_.value.id in assigns and all(isinstance(w, ast.Subscript) and isinstance(w.slice, ast.Constant) and w.slice.value == 0 for w in assigns[e_.value.id])):
+                        out.setdefault(v_.id, ("TRACK", "equal to the event's channel (a guard raises otherwise); channels assigned 0..num_tracks-1 by set_channel(i)"))
     # ... or the channel read in place, wherever a token is formatted from `<pairing>[0].channel`
     if has_len_guard and set_ch is not None:
         for n in body:
